@@ -82,7 +82,7 @@ impl Prop for C26 {
     type Scn = Scn;
     fn runs(tier: Tier) -> u64 {
         match tier {
-            Tier::Quick => 400_000,
+            Tier::Quick => 1_000_000,
             Tier::Thorough => 60_000_000,
         }
     }
